@@ -387,10 +387,23 @@ def _main2(a, pid, chk, mutations, seed, t0):
         groups.setdefault((c['obligation'], tuple(c.get('failed_parts') or [])), []).append(c)
     chosen = []
     for key, grp in groups.items():
+        # interleave the configurations the counterexamples come from (a replay may be able to reproduce the
+        # failure for one family of inputs -- e.g. scripted labellings -- and not for another)
+        by_cfg = {}
+        for c_ in grp:
+            by_cfg.setdefault(c_.get('config'), []).append(c_)
+        order = []
+        queues = [list(v) for v in by_cfg.values()]
+        while any(queues):
+            for q in queues:
+                if q:
+                    order.append(q.pop(0))
+        grp = order
         idx = list(range(min(2, len(grp))))
         if len(grp) > 2:
-            step = max(1, (len(grp) - 2) // 6)
-            idx += list(range(2, len(grp), step))[:6]
+            idx += list(range(2, min(len(grp), 2 + 3 * len(by_cfg))))[:10]
+            step = max(1, (len(grp) - 2) // 4)
+            idx += [i for i in range(2, len(grp), step) if i not in idx][:4]
         chosen += [(key, grp[i], j >= 2) for j, i in enumerate(idx)]
     confirmed_per_key = {}
     for (key, c, extra) in chosen:
